@@ -108,6 +108,8 @@ def wl_bloom(ctx, rng, case):
         loaders = {
             "frombytes": lambda: cls.frombytes(data, **bl.kw_hash(hf)),
             "frombytes(bytearray)": lambda: cls.frombytes(bytearray(data), **bl.kw_hash(hf)),
+            "frombytes(memoryview)": lambda: cls.frombytes(memoryview(data), **bl.kw_hash(hf)),
+            "frombytes(memoryview of bytearray)": lambda: cls.frombytes(memoryview(bytearray(data)), **bl.kw_hash(hf)),
             "filepath": lambda: cls(filepath=p, **bl.kw_hash(hf)),
             "hex_string": lambda: cls(hex_string=hx, **bl.kw_hash(hf)),
         }
@@ -228,7 +230,12 @@ def wl_expanding(ctx, rng, case):
         p = sc.path("load")
         with open(p, "wb") as fh:
             fh.write(data)
-        loaders = {"frombytes": lambda: cls.frombytes(data, **extra, **bl.kw_hash(hf)), "filepath": lambda: cls(filepath=p, **extra, **bl.kw_hash(hf))}
+        from pathlib import Path as _Path
+
+        loaders = {"frombytes": lambda: cls.frombytes(data, **extra, **bl.kw_hash(hf)), "filepath": lambda: cls(filepath=p, **extra, **bl.kw_hash(hf)),
+                   "frombytes(memoryview)": lambda: cls.frombytes(memoryview(data), **extra, **bl.kw_hash(hf)),
+                   "frombytes(bytearray)": lambda: cls.frombytes(bytearray(data), **extra, **bl.kw_hash(hf)),
+                   "filepath(Path)": lambda: cls(filepath=_Path(p), **extra, **bl.kw_hash(hf))}
         acc = [("expansions", lambda o: o.expansions), ("elements_added", lambda o: o.elements_added), ("estimated_elements", lambda o: o.estimated_elements),
                ("false_positive_rate (as float32)", lambda o: f32(o.false_positive_rate)),
                ("per-filter counts and bits", lambda o: [(c, b) for c, b in refimpl.parse_expanding(bytes(o))["filters"]])]
@@ -302,7 +309,12 @@ def wl_sketch(ctx, rng, case):
         p = sc.path("load")
         with open(p, "wb") as fh:
             fh.write(data)
-        loaders = {"frombytes": lambda: cls.frombytes(data, **extra, **bl.kw_hash(hf)), "filepath": lambda: cls(filepath=p, **extra, **bl.kw_hash(hf))}
+        from pathlib import Path as _Path
+
+        loaders = {"frombytes": lambda: cls.frombytes(data, **extra, **bl.kw_hash(hf)), "filepath": lambda: cls(filepath=p, **extra, **bl.kw_hash(hf)),
+                   "frombytes(memoryview)": lambda: cls.frombytes(memoryview(data), **extra, **bl.kw_hash(hf)),
+                   "frombytes(bytearray)": lambda: cls.frombytes(bytearray(data), **extra, **bl.kw_hash(hf)),
+                   "filepath(Path)": lambda: cls(filepath=_Path(p), **extra, **bl.kw_hash(hf))}
         acc = [("width", lambda o: o.width), ("depth", lambda o: o.depth), ("elements_added", lambda o: o.elements_added), ("query_type", lambda o: o.query_type),
                ("counters", lambda o: refimpl.parse_cms(bytes(o))["cells"])]
         if not sized:
@@ -399,7 +411,10 @@ def wl_cuckoo(ctx, rng, case):
             loaders = {"frombytes(error_rate)": lambda: resupply(cls.frombytes(data, error_rate=err, **kw)),
                        "load_error_rate": lambda: resupply(cls.load_error_rate(err, p, **kw))}
         else:
+            from pathlib import Path as _Path
+
             loaders = {"frombytes": lambda: resupply(cls.frombytes(data, **kw)), "filepath": lambda: resupply(cls(filepath=p, **kw)),
+                       "filepath(Path)": lambda: resupply(cls(filepath=_Path(p), **kw)),
                        "filepath(finger_size)": lambda: resupply(cls(filepath=p, finger_size=cfg.finger_size, **kw))}
 
         def table(o):
@@ -420,6 +435,9 @@ def wl_cuckoo(ctx, rng, case):
         compare(ctx, s, t, acc, MEMBER_Q, keys + ["never-added"], f"{cls.__name__} after 3 export+load cycles")
         ctx.check(bytes(t) == data, f"{cls.__name__}: bytes drift over repeated export+load cycles")
         ctx.count("chained_reload_checks")
+        if cfg.counting and not by_error_rate:
+            loaders["frombytes(memoryview)"] = lambda: resupply(cls.frombytes(memoryview(data), **kw))
+            loaders["frombytes(bytearray)"] = lambda: resupply(cls.frombytes(bytearray(data), **kw))
         for lname, ld in loaders.items():
             t = ld()
             ctx.check(type(t) is cls, f"{cls.__name__}: loader {lname} returned a {type(t).__name__}")
